@@ -167,6 +167,7 @@ int main(int argc, char** argv) {
     uint64_t n = mon->ncases(ctx);
     uint64_t mh = hash_str(ctx.monitor);
     long per_case_alarm = ctx.param_int("case_timeout_s", 60);
+    const bool slowlog = getenv("VF_SLOWLOG") != nullptr;       // diagnostic: report cases that take unusually long
     double last_alarm = 0;
     for (uint64_t idx = start_index; idx < n; idx++) {
         if (only_index >= 0) { if (idx < (uint64_t)only_index) { idx = (uint64_t)only_index - 1; continue; } if (idx > (uint64_t)only_index) break; }
@@ -174,7 +175,9 @@ int main(int argc, char** argv) {
         ctx.case_index = idx; rec[0] = idx; rec[1] = 0; notebuf[0] = 0; ctx.attribute(mon->primary_prop);
         ctx.rng.seed(ctx.seed, mh, idx);
         if ((ctx.cases & 1023) == 0) { double t = now(); if (t - last_alarm > 1.0) { alarm((unsigned)per_case_alarm); last_alarm = t; } }
+        double tc0 = slowlog ? now() : 0;
         mon->run_case(ctx, idx);
+        if (slowlog) { double dt = now() - tc0; if (dt > 0.25) fprintf(stderr, "SLOW-CASE %.2fs index=%llu note=%.160s\n", dt, (unsigned long long)idx, notebuf); }
         ctx.cases++;
     }
     alarm(0);
